@@ -98,17 +98,21 @@ func cloneValue(src interface{}, dst interface{}) {
 		srcType := srcVal.Type()
 		// we deep copy structure
 		// warning: unexported pointers are copied here
-		dstVal.Elem().Set(srcVal)
+		// the copy is built in a value of the type of the structure: the
+		// destination may be an interface{} which has no fields
+		st := reflect.New(srcType).Elem()
+		st.Set(srcVal)
 		for i := 0; i < srcVal.NumField(); i++ {
 			structField := srcType.Field(i)
 			srcField := srcVal.Field(i)
-			dstField := dstVal.Elem().Field(i)
+			dstField := st.Field(i)
 			if structField.IsExported() {
 				// we set to zero exported fields in order to deep copy them
 				dstField.Set(reflect.Zero(srcField.Type()))
 				cloneValue(srcField.Interface(), dstField.Addr().Interface())
 			}
 		}
+		dstVal.Elem().Set(st)
 
 	default:
 		dst := dstVal.Elem()
